@@ -358,10 +358,10 @@ def Cst.cf : Cst → Bool
   | .paren its _ => its.cf
   | .app f cs _ a => f.cf && cs.isEmpty && a.cf
   | .kw .. => false     -- the normaliser `Cst.norm` does not cover `with` / `assert` / select yet
-  | .sel .. => false
-  | .selOr .. => false
-  | .lam .. => false
-  | .un .. => false
+  | .sel e c1 _ _ _ => e.cf && c1.isEmpty
+  | .selOr e c1 _ _ _ c2 _ _ d => e.cf && c1.isEmpty && c2.isEmpty && d.cf
+  | .lam _ c1 _ c2 _ b => c1.isEmpty && c2.isEmpty && b.cf
+  | .un _ c _ e => c.isEmpty && e.cf
   | .bin .. => false
 def Items.cf : Items → Bool
   | .nil => true
@@ -404,10 +404,22 @@ def Cst.norm : Cst → Nat → Cst
     .app (f.norm i) cs (if containsNL g then vgap g (indentFromGap g) else [' '])
       (a.norm (if containsNL g then indentFromGap g else i))
   | .kw w c1 g1 h c2 g2 c3 g3 b, _ => .kw w c1 g1 h c2 g2 c3 g3 b     -- not covered by the normaliser
-  | .sel e c1 g1 gd attrs, _ => .sel e c1 g1 gd attrs
-  | .selOr e c1 g1 gd attrs c2 g2 g3 d, _ => .selOr e c1 g1 gd attrs c2 g2 g3 d
-  | .lam n c1 g1 c2 g2 b, _ => .lam n c1 g1 c2 g2 b
-  | .un op c g e, _ => .un op c g e
+  -- expression, nothing or a line break (at the indentation read from the gap), `.`, attrpath
+  | .sel e c1 g1 _ attrs, i =>
+    .sel (e.norm i) c1 (if containsNL g1 then vgap g1 (indentFromGap g1) else []) [] attrs
+  -- … one space or a line break (the default then at the indentation read from the gap), `or`, one space, default
+  | .selOr e c1 g1 _ attrs c2 g2 _ d, i =>
+    .selOr (e.norm i) c1 (if containsNL g1 then vgap g1 (indentFromGap g1) else []) [] attrs c2
+      (if containsNL g2 then vgap g2 (indentFromGap g2) else [' ']) [' ']
+      (d.norm (if containsNL g2 then indentFromGap g2 else i))
+  -- argument, nothing or a line break, `:`, one space or as many line breaks as the source has and the
+  -- current indentation, body
+  | .lam n c1 g1 c2 g2 b, i =>
+    .lam n c1 (if containsNL g1 then vgap g1 (indentFromGap g1) else []) c2
+      (if g2.count '\n' = 0 then [' '] else List.replicate (g2.count '\n') '\n' ++ spaces i) (b.norm i)
+  -- operator, nothing or a line break (the operand then at the indentation read from the gap), operand
+  | .un op c g e, i =>
+    .un op c (if containsNL g then vgap g (indentFromGap g) else []) (e.norm (if containsNL g then indentFromGap g else i))
   | .bin l c1 g1 op c2 g2 r, _ => .bin l c1 g1 op c2 g2 r
 /-- items of a container that spans several lines, one per line at indentation `j` -/
 def Items.normML : Items → Nat → Items
